@@ -22,7 +22,8 @@
 From Coq Require Import List Arith ZArith Bool.
 Import ListNotations.
 From MV Require Import Geometry.RankDet Base.Graph Base.Cover Base.ZV3 Geometry.Dimensionality Geometry.DimensionalityProofs
-  Geometry.DimensionalityInvariance Geometry.RankElim Geometry.VoltageLattice Geometry.InvarianceFull.
+  Geometry.DimensionalityInvariance Geometry.RankElim Geometry.VoltageLattice Geometry.InvarianceFull Geometry.Extend Geometry.DispTensor Geometry.DimFromTensor.
+From Coq Require Import QArith.
 Local Open Scope nat_scope.
 
 (* get_dimensionality's control flow returns None exactly when two atoms of the cell contents are not
@@ -322,3 +323,38 @@ Example C09_invariance_nonvacuous :
   dim_spec 2 p (basisE ((1, 1, 0), (0, 1, 0), (0, 0, 1))%Z E) = Some (2, 2).
 Proof. vm_compute. repeat split; reflexivity. Qed.
 Print Assumptions C09_invariance_nonvacuous.
+
+(* C09 o C10: the tables get_dimensionality reads -- the C10 model of get_displacement_tensor on the wrapped structure and on
+   structure.repeat(2 along the periodic axes) -- satisfy the table hypothesis of the theorems above (C10_disp_tensor_spec,
+   the repeated system again has non-zero volume and its atoms inside its cell), so the arithmetic of get_dimensionality on
+   those tables returns the answer of the discrete mirror on the TRUE bonded network, for every cell, padding and structure *)
+Theorem C09_tables_of_C10_satisfy_the_table_hypothesis :
+  forall (pad : Q) a b c pbc pos rad thr, (0 < pad)%Q -> vol a b c <> 0%Z -> (forall r, In r pos -> in_cell a b c pbc r) ->
+  (0 < cutoff (length pos) rad thr)%Z ->
+  tab_spec (p_of pbc) (img_d2 a b c (fun i => nth i pos zero3)) (length pos) (cutoff (length pos) rad thr) (tab_1x pad a b c pbc pos rad thr)
+  /\ tab_spec (p_of pbc) (img2 a b c (fun i => nth i pos zero3) (length pos) (p_of pbc)) (2 ^ npbc (p_of pbc) * length pos)
+       (cutoff (length pos) rad thr) (tab_2x pad a b c pbc pos rad thr).
+Proof. intros pad a b c pbc pos rad thr Hp Hv Hi Hc. split; [apply tab_1x_spec | apply tab_2x_spec]; assumption. Qed.
+Print Assumptions C09_tables_of_C10_satisfy_the_table_hypothesis.
+Theorem C09_get_dimensionality_on_C10_tables :
+  forall (pad : Q) a b c pbc pos rad thr, (0 < pad)%Q -> vol a b c <> 0%Z -> (forall r, In r pos -> in_cell a b c pbc r) ->
+  0 < length pos -> (0 <= thr)%Z -> (forall i, i < length pos -> (0 <= rad i)%Z) -> (0 < cutoff (length pos) rad thr)%Z ->
+  forall E, wf_E (length pos) (p_of pbc) E = true ->
+  (forall i j o, i < length pos -> j < length pos -> okoff (p_of pbc) o = true -> (i, o) <> (j, ozero) ->
+     (In (i, j, o) (sym E) <-> bonded a b c (fun i => nth i pos zero3) rad thr i j o)) ->
+  get_dim_metric (length pos) (p_of pbc) rad thr (tab_1x pad a b c pbc pos rad thr) (tab_2x pad a b c pbc pos rad thr)
+  = get_dim_graph (length pos) (p_of pbc) E.
+Proof. exact get_dim_of_tensor_tables. Qed.
+Print Assumptions C09_get_dimensionality_on_C10_tables.
+(* non-vacuity: a sheared 2D-periodic cell with two atoms; the composed model returns 2 *)
+Example C09_on_C10_tables_example :
+  let a := mk3 8 0 0 in let b := mk3 3 6 0 in let c := mk3 0 0 20 in let pbc := mkP true true false in
+  let pos := [mk3 1 1 1; mk3 5 3 2] in let rad := fun _ : nat => 2%Z in
+  vol a b c <> 0%Z /\ (forall r, In r pos -> in_cell a b c pbc r) /\ (0 < cutoff 2 rad 2)%Z /\
+  get_dim_metric 2 (p_of pbc) rad 2 (tab_1x (1 # 4) a b c pbc pos rad 2) (tab_2x (1 # 4) a b c pbc pos rad 2) = Some 2%Z.
+Proof.
+  cbv zeta. split; [vm_compute; discriminate|]. split.
+  { simpl. intros r [<-|[<-|[]]]; vm_compute; intuition congruence. }
+  split; vm_compute; reflexivity.
+Qed.
+Print Assumptions C09_on_C10_tables_example.
